@@ -32,6 +32,9 @@ def programs(subset="all"):
         for f in sorted(os.listdir(ex)):
             if f.endswith(".ddp"):
                 out.append(("examples/" + f[:-4], ex, f))
+    only = os.environ.get("VERIF_CORPUS_ONLY")      # debugging aid: substring of the program id
+    if only:
+        out = [x for x in out if only in x[0]]
     return out
 
 
